@@ -116,8 +116,8 @@ class C17(Property):
         "delta and logarithmic units are outside the catalogue",
         "'equivalent' is decided with tolerance 1e-9 by the oracle; pairs within finam's np.isclose slack (2e-5) do not occur in the catalogue and would be counted unconstrained",
     )
-    cases = {"quick": 48, "thorough": 240}
-    min_nontrivial = {"quick": 3000, "thorough": len(NAMES) * (len(NAMES) - 1)}
+    cases = {"quick": 48, "thorough": 1000}
+    min_nontrivial = {"quick": 3000, "thorough": 9900}
     jobs = {"quick": 4, "thorough": 16}
     exhaustive = {"quick": False, "thorough": True}
 
